@@ -31,3 +31,26 @@ fn read_back_is_in_append_order() {
     }
     assert_eq!(got, vec![1, 2, 3], "records are not read back in append order");
 }
+
+#[test]
+fn read_back_is_in_append_order_without_a_force_in_between() {
+    let dir = tempfile::tempdir().unwrap();
+    let path = dir.path().join("w2.log");
+    {
+        let mut wal = WriteAheadLog::create(&path).unwrap();
+        let big = wal.max_record_size() * 2 / 3;
+        wal.push(rec(1, big)).unwrap(); // block zero, leaves ~1/3 free
+        wal.push(rec(2, big)).unwrap(); // does not fit: opens the first block after block zero
+        wal.push(rec(3, 16)).unwrap(); // small: would still fit into block zero - must follow record 2
+        wal.push(rec(4, 16)).unwrap();
+        wal.perform_flush().unwrap();
+        std::mem::forget(wal);
+    }
+    let mut wal = WriteAheadLog::open(&path).unwrap();
+    let mut got = Vec::new();
+    let mut rd = wal.reader(4).unwrap();
+    while let Some(r) = rd.next_ref().unwrap() {
+        got.push(r.lsn());
+    }
+    assert_eq!(got, vec![1, 2, 3, 4], "records are not read back in append order");
+}
